@@ -29,6 +29,8 @@ LATTICES = {
     "rhombP": ([5.0, 5.0, 5.0, 70, 70, 70], "P"),
     # pseudo-orthorhombic: several hkl assignments of one pair of peaks agree within the cosine tolerance
     "monoclinic_pseudo": ([5.1, 5.3, 5.2, 90, 90.6, 90], "P"),
+    # pseudo-cubic: which rings merge depends on ds_tol (0.004, 0.005, 0.01 give different ring tables)
+    "tetragonal_pseudo": ([4.0, 4.0, 4.05, 90, 90, 90], "P"),
 }
 COSTOL = [0.002, float(np.cos(np.radians(89.9))), -0.002]
 
@@ -47,7 +49,7 @@ def cases(draw, sound, small=False):
                                  else [40, 60, 120]))
     hkl_tol = draw(st.sampled_from([0.01, 0.02, 0.05] if not sound else [0.01, 0.02, 0.05, 0.1]))
     cosine_tol = draw(st.sampled_from(COSTOL))
-    ds_tol = draw(st.sampled_from([0.004, 0.01]))
+    ds_tol = draw(st.sampled_from([0.004, 0.01, 0.001]))
     frac = draw(st.sampled_from([0.5, 0.7, 0.9]))
     seed = draw(st.integers(0, 2 ** 31 - 1))
     if small:                    # quick tier: bound the size of the peak list
@@ -102,6 +104,11 @@ def build(case):
     cell = [x * case["scale"] for x in cell0[:3]] + list(cell0[3:])
     hk, dsmax = reflections(cell, sym, case["nrefl"])
     B = gens.busing_levy_B(cell)
+    if case.get("onering"):
+        # a very small d* range: the data hold the first powder ring only
+        dsq = ((hk @ B.T) ** 2).sum(axis=1)
+        hk = hk[dsq <= dsq.min() * (1 + 1e-9)]
+        dsmax = float(np.sqrt(dsq.min())) * 1.01
     UBs = []
     redraws = 0
     tol = case["hkl_tol"]
@@ -183,6 +190,39 @@ def ring_fixes_orientation(table, B, ctol, table2=None):
                 if np.abs(M - np.rint(M)).max() > 1e-6:
                     return False
     return True
+
+
+@st.composite
+def oneringcases(draw, small=False):
+    """only the first ring was recorded (one ring in the table); its members are not all parallel for these lattices"""
+    c = draw(cases(False, small))
+    c["lattice"] = draw(st.sampled_from(["cubicP", "cubicF", "cubicI", "tetragonal", "rhombP"]))
+    c["driver"] = draw(st.sampled_from(["score_all_pairs", "index", "do_index"]))
+    c["onering"] = True
+    c["cone"] = 0
+    c["frac"] = 0.5
+    c["ng"] = min(c["ng"], 4)
+    c["hkl_tol"] = min(c["hkl_tol"], 0.02)
+    c.pop("dohist", None)
+    return c
+
+
+@st.composite
+def ringtablecases(draw, small=False):
+    """do_index on a pseudo-symmetric cell whose ring table depends on the d* tolerance (which rings merge), with the
+    tolerance away from the indexer's default and the generating ring named by its number in the user's table"""
+    c = draw(cases(False, small))
+    c["lattice"] = draw(st.sampled_from(["tetragonal_pseudo", "tetragonal_pseudo", "monoclinic_pseudo"]))
+    c["driver"] = "do_index"
+    c["dohist"] = "single_forgen"
+    c["ds_tol"] = draw(st.sampled_from([0.001, 0.002, 0.01]))
+    c["cone"] = 0
+    c["frac"] = 0.5
+    c["ng"] = min(c["ng"], 4)
+    c["nrefl"] = min(c["nrefl"], 120)
+    c["seed"] = c["seed"] | 1                 # the last qualifying ring among the first ten
+    c.pop("passes", None)
+    return c
 
 
 @st.composite
@@ -286,7 +326,9 @@ def check(case, rec=None):
                 # (anti)parallel.  Judged on the peaks as assigned: with close rings and a wide ds_tol the members of
                 # a ring of the table can be handed to its neighbour, leaving Friedel pairs only
                 Bm = gens.busing_levy_B(cell)
-                for rr in rings[:6]:
+                # the first ring that qualifies, or the last one among the first ten (ring numbers are those of the
+                # table made with this ds_tol)
+                for rr in (rings[:6] if case["seed"] % 2 == 0 else rings[:10][::-1]):
                     good = True
                     table = set(tuple(int(x) for x in h) for h in probe.unitcell.ringhkls[probe.unitcell.ringds[rr]])
                     for g_ in range(ng):
@@ -455,6 +497,9 @@ def run_shard(rec):
     quick = rec.tier == "quick"
     hyp_run(rec, "complete", cases(False, quick), lambda c: check(c, rec), max_examples=20 if quick else 250, shrink=not quick)
     hyp_run(rec, "axial", axialcases(quick), lambda c: check(c, rec), max_examples=3 if quick else 40, shrink=not quick)
+    hyp_run(rec, "ringtable", ringtablecases(quick), lambda c: check(c, rec), max_examples=4 if quick else 40,
+            shrink=not quick)
+    hyp_run(rec, "onering", oneringcases(quick), lambda c: check(c, rec), max_examples=3 if quick else 40, shrink=not quick)
     hyp_run(rec, "sound", cases(True, quick), lambda c: check(c, rec), max_examples=25 if quick else 300, shrink=not quick)
 
 
